@@ -43,4 +43,3 @@ def run(ctx):
     for hook in ["post_create", "post_modify", "post_batch_modify", "post_delete", "post_repl_refresh",
                  "post_repl_incremental_conflict", "post_repl_incremental"]:
         hook_nontrivial(ctx, "K2-hook-body", "refint", PLUGIN, hook)
-    ctx.floor("K2-contains", "registries requiring ReferentialIntegrity", len(POST), 7)
